@@ -9,14 +9,30 @@ open Tree
 structure InvO (s : St) : Prop where
   order : s.order = ids s.t
   nodup : (ids s.t ++ s.free).Nodup
-  bound : ∀ i ∈ ids s.t ++ s.free, i < 4 * s.blocks
+  bound : ∀ i ∈ ids s.t ++ s.free, i < ipbOf s.multi * s.blocks
 
 theorem invO_init (m : Bool) : InvO (St.init m) :=
   ⟨rfl, by simp [St.init], by simp [St.init]⟩
 
+theorem mem_blockItems (b n x : Nat) : x ∈ blockItems b n ↔ b ≤ x ∧ x < b + n := by
+  induction n with
+  | zero => simp [blockItems]
+  | succ n ih => simp only [blockItems, List.mem_cons, ih]; omega
+
+theorem nodup_blockItems (b n : Nat) : (blockItems b n).Nodup := by
+  induction n with
+  | zero => simp [blockItems]
+  | succ n ih =>
+    simp only [blockItems, List.nodup_cons]
+    refine ⟨?_, ih⟩
+    rw [mem_blockItems]; omega
+
+/-- the translated block sizes are positive (re-checked whenever the constants are regenerated) -/
+theorem ipb_pos (m : Bool) : 0 < ipbOf m := by cases m <;> decide
+
 theorem alloc_spec (s : St) (hO : InvO s) :
     (s.alloc.1 :: (ids s.t ++ s.alloc.2.free)).Nodup ∧
-    (∀ i ∈ s.alloc.1 :: (ids s.t ++ s.alloc.2.free), i < 4 * s.alloc.2.blocks) := by
+    (∀ i ∈ s.alloc.1 :: (ids s.t ++ s.alloc.2.free), i < ipbOf s.alloc.2.multi * s.alloc.2.blocks) := by
   have hn := hO.nodup
   have hb := hO.bound
   unfold St.alloc
@@ -32,26 +48,40 @@ theorem alloc_spec (s : St) (hO : InvO s) :
     rw [hf] at hn hb
     simp only [List.append_nil] at hn hb
     simp only
-    have hlt : ∀ j ∈ ids s.t, j < 4 * s.blocks := hb
-    constructor
-    · rw [List.nodup_cons]
+    have hlt : ∀ j ∈ ids s.t, j < ipbOf s.multi * s.blocks := hb
+    have hpos := ipb_pos s.multi
+    have hmem := mem_blockItems (ipbOf s.multi * s.blocks) (ipbOf s.multi)
+    have hnd := nodup_blockItems (ipbOf s.multi * s.blocks) (ipbOf s.multi)
+    have hmul : ipbOf s.multi * (s.blocks + 1) = ipbOf s.multi * s.blocks + ipbOf s.multi := Nat.mul_succ _ _
+    cases hbi : blockItems (ipbOf s.multi * s.blocks) (ipbOf s.multi) with
+    | nil =>
+      exfalso
+      have := (hmem (ipbOf s.multi * s.blocks)).mpr ⟨Nat.le_refl _, by omega⟩
+      rw [hbi] at this; simp at this
+    | cons i rest =>
+      rw [hbi] at hmem hnd
+      simp only
+      rw [List.nodup_cons] at hnd
       constructor
-      · intro hm
-        rcases List.mem_append.mp hm with hm | hm
-        · have := hlt _ hm; omega
-        · simp at hm
-      · rw [List.nodup_append]
-        refine ⟨hn, by simp, ?_⟩
-        intro a ha b hb'
-        have := hlt a ha
-        simp at hb'
-        omega
-    · intro j hj
-      rcases List.mem_cons.mp hj with hj | hj
-      · omega
-      · rcases List.mem_append.mp hj with hj | hj
-        · have := hlt j hj; omega
-        · simp at hj; omega
+      · rw [List.nodup_cons]
+        constructor
+        · intro hm
+          rcases List.mem_append.mp hm with hm | hm
+          · have := hlt _ hm; have := (hmem i).mp (by simp); omega
+          · exact hnd.1 hm
+        · rw [List.nodup_append]
+          refine ⟨hn, hnd.2, ?_⟩
+          intro a ha b hb'
+          have := hlt a ha
+          have := (hmem b).mp (by simp [hb'])
+          omega
+      · intro j hj
+        rw [hmul]
+        rcases List.mem_cons.mp hj with hj | hj
+        · have := (hmem j).mp (by simp [hj]); omega
+        · rcases List.mem_append.mp hj with hj | hj
+          · have := hlt j hj; omega
+          · have := (hmem j).mp (by simp [hj]); omega
 
 /-- the generic insert: if the ids of the new tree are the old ids with the new id linked at the
     landing, the list invariant is kept -/
